@@ -494,6 +494,7 @@ impl Check for VaultCheck {
         let vaddr: soroban_sdk::xdr::ScAddress = (&vid).try_into().unwrap();
         let mut ev_shares: BTreeMap<usize, i128> = BTreeMap::new(); // share balances replayed from deposit / withdraw / transfer events
         for (i, s) in steps.iter().enumerate() {
+            let mut parked: Option<Violation> = None;
             // rate before: (A+1)/(S+10^off)
             let (a0, s0) = (m.total_assets(), m.supply);
             let kind;
@@ -625,14 +626,14 @@ impl Check for VaultCheck {
                                     let al0 = allow_before[idx(x, *operator)].0;
                                     let al1 = v.allowance(&a(x), &a(*operator));
                                     if al0 >= spent && al1 != al0 - spent {
-                                        return Err(violation("allowance.exact_decrement", kind, i, format!("share allowance ({x},{operator}) {al0} -> {al1} after spending {spent} in {s:?}")));
+                                        self.clause(st, &mut parked, violation("allowance.exact_decrement", kind, i, format!("share allowance ({x},{operator}) {al0} -> {al1} after spending {spent} in {s:?}")))?;
                                     }
                                     al0 >= spent
                                 }
                                 _ => false,
                             };
                             if !(by_holder || by_allowance) {
-                                return Err(violation("auth.debit_needs_holder_or_allowance", kind, i, format!("shares of actor {x} fell {} -> {sh_now} in {s:?} (root entry signed by {sg:?})", before_shares[x])));
+                                self.clause(st, &mut parked, violation("auth.debit_needs_holder_or_allowance", kind, i, format!("shares of actor {x} fell {} -> {sh_now} in {s:?} (root entry signed by {sg:?})", before_shares[x])))?;
                             }
                         }
                         if as_now < before_assets[x] {
@@ -643,20 +644,25 @@ impl Check for VaultCheck {
                                     let al0 = allow_before[idx(x, *operator)].1;
                                     let al1 = ac.allowance(&a(x), &a(*operator));
                                     if al0 >= spent && al1 != al0 - spent {
-                                        return Err(violation("allowance.exact_decrement", kind, i, format!("asset allowance ({x},{operator}) {al0} -> {al1} after spending {spent} in {s:?}")));
+                                        self.clause(st, &mut parked, violation("allowance.exact_decrement", kind, i, format!("asset allowance ({x},{operator}) {al0} -> {al1} after spending {spent} in {s:?}")))?;
                                     }
                                     al0 >= spent
                                 }
                                 _ => false,
                             };
                             if !(by_holder || by_allowance) {
-                                return Err(violation("auth.debit_needs_holder_or_allowance", kind, i, format!("assets of actor {x} fell {} -> {as_now} in {s:?} (root entry signed by {sg:?})", before_assets[x])));
+                                self.clause(st, &mut parked, violation("auth.debit_needs_holder_or_allowance", kind, i, format!("assets of actor {x} fell {} -> {as_now} in {s:?} (root entry signed by {sg:?})", before_assets[x])))?;
                             }
                         }
                     }
                 }
             }
             let is_vault_op = matches!(s, Step::Deposit { .. } | Step::Mint { .. } | Step::Withdraw { .. } | Step::Redeem { .. });
+            if matches!((&exp, got), (Exp::Fail, true) | (Exp::Ok { .. }, false)) {
+                if let Some(v) = parked.take() {
+                    return Err(v);
+                }
+            }
             match (&exp, got) {
                 (Exp::Fail, true) if matches!(op_signer, Some(sg) if sg != op_operator) => return Err(violation("auth.operator_must_authorize", kind, i, format!("{s:?} succeeded although the operator did not sign"))),
                 (Exp::Fail, true) => return Err(violation("refine.must_fail", kind, i, format!("{s:?} succeeded with {res:?}; model before: A={a0} S={s0} off={}", cfg.offset))),
@@ -676,17 +682,17 @@ impl Check for VaultCheck {
                     _ => (assets, "assets"),
                 };
                 if ret != want_ret {
-                    return Err(violation("convert.exact_rounded", kind, i, format!("{s:?} returned {ret} {what}, exact formula gives {want_ret}; A={a0} S={s0} off={}", cfg.offset)));
+                    self.clause(st, &mut parked, violation("convert.exact_rounded", kind, i, format!("{s:?} returned {ret} {what}, exact formula gives {want_ret}; A={a0} S={s0} off={}", cfg.offset)))?;
                 }
                 if preview != Some(ret) {
-                    return Err(violation("preview.eq_operation", kind, i, format!("{s:?}: preview {preview:?} but operation returned {ret}")));
+                    self.clause(st, &mut parked, violation("preview.eq_operation", kind, i, format!("{s:?}: preview {preview:?} but operation returned {ret}")))?;
                 }
                 // rate monotone: (A'+1)(S+v) >= (A+1)(S'+v)
                 let vv = BigInt::from(10u32).pow(cfg.offset);
                 let lhs = (big(m.total_assets()) + 1) * (big(s0) + &vv);
                 let rhs = (big(a0) + 1) * (big(m.supply) + &vv);
                 if lhs < rhs {
-                    return Err(violation("rate.monotone", kind, i, format!("{s:?}: rate fell: A {a0}->{} S {s0}->{}", m.total_assets(), m.supply)));
+                    self.clause(st, &mut parked, violation("rate.monotone", kind, i, format!("{s:?}: rate fell: A {a0}->{} S {s0}->{}", m.total_assets(), m.supply)))?;
                 }
                 if lhs > rhs {
                     st.hit("probe.rounding_dust_to_vault");
@@ -715,29 +721,29 @@ impl Check for VaultCheck {
                     }
                 }
                 if is_vault_op && n_share_events != 1 {
-                    return Err(violation("events.one_per_update", kind, i, format!("{n_share_events} share events for {s:?}")));
+                    self.clause(st, &mut parked, violation("events.one_per_update", kind, i, format!("{n_share_events} share events for {s:?}")))?;
                 }
             }
             for x in 0..cfg.actors {
                 if *ev_shares.get(&x).unwrap_or(&0) != m.sb(x) {
-                    return Err(violation("events.replay_balances", kind, i, format!("actor {x}: share events give {}, balance {} after {s:?}", ev_shares.get(&x).unwrap_or(&0), m.sb(x))));
+                    self.clause(st, &mut parked, violation("events.replay_balances", kind, i, format!("actor {x}: share events give {}, balance {} after {s:?}", ev_shares.get(&x).unwrap_or(&0), m.sb(x))))?;
                 }
             }
             // ---- exact movement between exactly the named parties (model == real for everyone)
             for x in 0..cfg.actors {
                 let (ra, rs) = (ac.balance(&a(x)), v.balance(&a(x)));
                 if ra != m.ab(x) || rs != m.sb(x) {
-                    return Err(violation("move.exact_parties_amounts", kind, i, format!("actor {x}: assets {ra} (model {}, before {}), shares {rs} (model {}, before {}) after {s:?}", m.ab(x), before_assets[x], m.sb(x), before_shares[x])));
+                    self.clause(st, &mut parked, violation("move.exact_parties_amounts", kind, i, format!("actor {x}: assets {ra} (model {}, before {}), shares {rs} (model {}, before {}) after {s:?}", m.ab(x), before_assets[x], m.sb(x), before_shares[x])))?;
                 }
             }
             let (ta, ts) = (v.total_assets(), v.total_supply());
             if ta != m.total_assets() || ts != m.supply || ac.balance(&vid) != ta {
-                return Err(violation("move.exact_parties_amounts", "vault", i, format!("total_assets {ta} (model {}), total_supply {ts} (model {}) after {s:?}", m.total_assets(), m.supply)));
+                self.clause(st, &mut parked, violation("move.exact_parties_amounts", "vault", i, format!("total_assets {ta} (model {}), total_supply {ts} (model {}) after {s:?}", m.total_assets(), m.supply)))?;
             }
             if !got {
                 let after: Vec<i128> = (0..cfg.actors).map(|x| ac.balance(&a(x))).chain([ac.balance(&vid)]).collect();
                 if after != before_assets || w.storage_digest(&[&vid, &asset]) != digest_before {
-                    return Err(violation("fail.no_trace", kind, i, format!("vault / asset state changed by failed {s:?}")));
+                    self.clause(st, &mut parked, violation("fail.no_trace", kind, i, format!("vault / asset state changed by failed {s:?}")))?;
                 }
             }
             // ---- allowances (shares and asset) equal the model, incl. expiry
@@ -745,7 +751,7 @@ impl Check for VaultCheck {
                 for sp in 0..cfg.actors {
                     let (rs, ra) = (v.allowance(&a(o), &a(sp)), ac.allowance(&a(o), &a(sp)));
                     if rs != m.sal(o, sp) || ra != m.aal(o, sp) {
-                        return Err(violation("allowance.model_eq", kind, i, format!("({o},{sp}): share allowance {rs} (model {}), asset allowance {ra} (model {}) at ledger {} after {s:?}", m.sal(o, sp), m.aal(o, sp), w.now())));
+                        self.clause(st, &mut parked, violation("allowance.model_eq", kind, i, format!("({o},{sp}): share allowance {rs} (model {}), asset allowance {ra} (model {}) at ledger {} after {s:?}", m.sal(o, sp), m.aal(o, sp), w.now())))?;
                     }
                 }
             }
@@ -763,22 +769,25 @@ impl Check for VaultCheck {
                             (r, wv) => Err(violation("convert.exact_rounded", name, i, format!("{name}({x}) = {r:?}, exact formula {wv:?}; A={} S={} off={}", m.total_assets(), m.supply, cfg.offset))),
                         }
                     };
-                    chk("convert_to_shares", v.try_convert_to_shares(&x).ok().and_then(|r| r.ok()), m.to_shares(x, false))?;
-                    chk("convert_to_assets", v.try_convert_to_assets(&x).ok().and_then(|r| r.ok()), m.to_assets(x, false))?;
-                    chk("preview_deposit", v.try_preview_deposit(&x).ok().and_then(|r| r.ok()), m.to_shares(x, false))?;
-                    chk("preview_mint", v.try_preview_mint(&x).ok().and_then(|r| r.ok()), m.to_assets(x, true))?;
-                    chk("preview_withdraw", v.try_preview_withdraw(&x).ok().and_then(|r| r.ok()), m.to_shares(x, true))?;
-                    chk("preview_redeem", v.try_preview_redeem(&x).ok().and_then(|r| r.ok()), m.to_assets(x, false))?;
+                    if let Err(v) = chk("convert_to_shares", v.try_convert_to_shares(&x).ok().and_then(|r| r.ok()), m.to_shares(x, false)) { self.clause(st, &mut parked, v)?; }
+                    if let Err(v) = chk("convert_to_assets", v.try_convert_to_assets(&x).ok().and_then(|r| r.ok()), m.to_assets(x, false)) { self.clause(st, &mut parked, v)?; }
+                    if let Err(v) = chk("preview_deposit", v.try_preview_deposit(&x).ok().and_then(|r| r.ok()), m.to_shares(x, false)) { self.clause(st, &mut parked, v)?; }
+                    if let Err(v) = chk("preview_mint", v.try_preview_mint(&x).ok().and_then(|r| r.ok()), m.to_assets(x, true)) { self.clause(st, &mut parked, v)?; }
+                    if let Err(v) = chk("preview_withdraw", v.try_preview_withdraw(&x).ok().and_then(|r| r.ok()), m.to_shares(x, true)) { self.clause(st, &mut parked, v)?; }
+                    if let Err(v) = chk("preview_redeem", v.try_preview_redeem(&x).ok().and_then(|r| r.ok()), m.to_assets(x, false)) { self.clause(st, &mut parked, v)?; }
                 }
                 if !m.huge(0) && m.conv_ok() {
                     for x in 0..cfg.actors {
                         let mw = v.try_max_withdraw(&a(x)).ok().and_then(|r| r.ok());
                         let mr = v.try_max_redeem(&a(x)).ok().and_then(|r| r.ok());
                         if mw != fits(&m.to_assets(m.sb(x), false)) || mr != Some(m.sb(x)) {
-                            return Err(violation("max.bounds_respected", "max_withdraw/max_redeem", i, format!("actor {x}: max_withdraw {mw:?} (formula {:?}), max_redeem {mr:?} (shares {})", fits(&m.to_assets(m.sb(x), false)), m.sb(x))));
+                            self.clause(st, &mut parked, violation("max.bounds_respected", "max_withdraw/max_redeem", i, format!("actor {x}: max_withdraw {mw:?} (formula {:?}), max_redeem {mr:?} (shares {})", fits(&m.to_assets(m.sb(x), false)), m.sb(x))))?;
                         }
                     }
                 }
+            }
+            if let Some(v) = parked.take() {
+                return Err(v);
             }
             // abstract state: op, outcome, who acts for whom, rate regime, allowances alive, fault script
             let parties = match s { Step::Deposit { receiver, from, operator, .. } | Step::Mint { receiver, from, operator, .. } => (receiver == from, from == operator), Step::Withdraw { receiver, owner, operator, .. } | Step::Redeem { receiver, owner, operator, .. } => (receiver == owner, owner == operator), _ => (true, true) };
